@@ -78,6 +78,8 @@ impl Modulator for Lfo {
 	}
 
 	fn finished(&self) -> bool {
+		#[cfg(feature = "verif-hooks")]
+		crate::verif::sync_point("modulator.removed.load");
 		self.shared.removed.load(Ordering::SeqCst)
 	}
 }
